@@ -316,6 +316,7 @@ type scenario struct {
 	viaNew     bool                     // the Writer is built by the deprecated constructor NewWriter(WriterConfig)
 	defBal     bool                     // Writer.Balancer left unset: the default round-robin (one goroutine: message j of the run goes to partition j mod n)
 	writeTO    time.Duration            // > 0: Writer.WriteTimeout
+	codec      int                      // > 0: Writer.Compression is this codec (1 gzip, 2 snappy, 3 lz4, 4 zstd) instead of the derived one
 	prodMax    int16                    // wire: brokers advertise Produce only up to this version (0 = whatever the cluster model advertises)
 	stallAt    int                      // wire: the broker stops reading in the middle of the n-th produce request to arrive (special "stallwrite")
 	linger     time.Duration            // > 0: timed run — the trace carries clock ticks and the model's linger bound (BatchTimeout + slack) applies
@@ -879,6 +880,27 @@ func (b *builder) manyTopics(i int) *scenario {
 	return sc
 }
 
+// oldBrokerBig: over the real Transport against brokers that speak Produce only up to v2 (message sets, format 1), with
+// Compression set and batches of 70-200 KiB: the compressed wrapper message must carry the WHOLE inner message set —
+// every message of an acknowledged batch is in the log.
+func (b *builder) oldBrokerBig(i int) *scenario {
+	r := b.r
+	sc := &scenario{name: "oldbig" + strconv.Itoa(i), bs: 200, bb: 1 << 20, ma: 2, async: false, compl: i%2 == 0, wtopic: "t",
+		timeout: 3 * time.Millisecond, nparts: map[string]int{"t": 1}, faults: map[tpKey][]fault{}, closeAt: -1,
+		wire: 1 + i%2, prodMax: []int16{2, 1, 2, 0}[i%4], codec: 1 + i%4}
+	var calls []callSpec
+	for c := 0; c < 2; c++ {
+		b.nextC++
+		cs := callSpec{id: b.nextC}
+		for k := 0; k < 60+r.Intn(60); k++ {
+			cs.msgs = append(cs.msgs, b.mkMsg(900+r.Intn(900), "", 0, false))
+		}
+		calls = append(calls, cs)
+	}
+	sc.callers = [][]callSpec{calls}
+	return sc
+}
+
 // tinyTimeout: BatchTimeout of microseconds with BatchSize 2 and odd message counts, while every batch creation is
 // stalled inside the partition mutex: the linger timer of a batch expires while writeMessages fills and queues it and
 // opens the next batch, so the timer branch of awaitBatch runs for a batch that is no longer attached
@@ -1138,6 +1160,9 @@ func run(sc *scenario, out *bufio.Writer) {
 		w.RequiredAcks = kafka.RequireAll
 	}
 	w.Compression = kafka.Compression(opt % 5)
+	if sc.codec > 0 {
+		w.Compression = kafka.Compression(sc.codec)
+	}
 	f.wantAcks, f.wantAttrs = int16(w.RequiredAcks), int16(w.Compression)
 	var wc *wireCluster
 	if sc.wire > 0 {
@@ -1853,6 +1878,9 @@ func main() {
 	}
 	for i := 0; i < 6*extra && failedScenarios < 3; i++ {
 		run(b.manyTopics(i), out)
+	}
+	for i := 0; i < 4*extra && failedScenarios < 3; i++ {
+		run(b.oldBrokerBig(i), out)
 	}
 	for i := 0; i < 2+extra/5 && failedScenarios < 3; i++ {
 		run(b.sharedFail(i), out)
